@@ -7,6 +7,15 @@ open Girc Girc.Model Girc.Spec Girc.Proofs.Pure Girc.Proofs.ProtocolA
 
 theorem gen_chunk_size : Gen.const_saslChunkSize = 400 := by decide
 
+/-- Tie for the logging clause: in the source as it is now, EVERY `Event{…}` literal whose command is PASS,
+    WEBIRC or OPER, and every AUTHENTICATE literal whose parameters carry the mechanism response (`auth…`),
+    sets `Sensitive: true` — these are the events `no_secret_logged` is about. -/
+def credentialBearing (l : List UInt8 × List UInt8 × Bool) : Bool :=
+  l.1 = [0x50, 0x41, 0x53, 0x53] || l.1 = [0x57, 0x45, 0x42, 0x49, 0x52, 0x43] || l.1 = [0x4F, 0x50, 0x45, 0x52] ||
+  (l.1 = [0x41, 0x55, 0x54, 0x48, 0x45, 0x4E, 0x54, 0x49, 0x43, 0x41, 0x54, 0x45] && (findSub [0x61, 0x75, 0x74, 0x68] l.2.1).isSome)
+theorem gen_credentials_sensitive : Gen.eventLiterals.all (fun l => !credentialBearing l || l.2.2) = true := by decide
+theorem gen_credentials_present : (Gen.eventLiterals.filter credentialBearing).length = 5 := by decide
+
 /-- base64 loses nothing: the RFC 4648 decoder recovers every input from the encoder's output. -/
 theorem b64_roundtrip (x : Bytes) : b64Decode (b64Encode x) = some x := Proofs.Pure.b64_roundtrip x
 
